@@ -205,6 +205,29 @@ def explore_shard(acc, shard):
                 acc.count("nontrivial")
         if case:
             acc.sample(layer, case)
+    elif kind == "vocab":
+        # every vocabulary token as a value (escaped, so that it is the value), as a multi-value ATTACKS, in the
+        # chart and as a key, in both formats
+        layer = "V vocabulary texts"
+        case = None
+        for tok in X.VOCABULARY + X.KEY_VOCABULARY:
+            e = X.escape_value(tok)
+            texts = [
+                f"#TITLE:{e};\n#ATTACKS:{tok};\n#DISPLAYBPM:{tok};\n#NOTES:dance-single:{e}:{e}:{e}:{e}:0000;\n",
+                f"#VERSION:0.83;\n#TITLE:{e};\n#ATTACKS:{tok};\n#NOTEDATA:;\n#STEPSTYPE:{e};\n#DESCRIPTION:{e};\n#DIFFICULTY:{e};\n#ATTACKS:{tok};\n#NOTES:0000;\n",
+                f"#VERSION:{e};\n#TITLE:t;\n#NOTEDATA:;\n#DESCRIPTION:d;\n#NOTES:0000;\n",
+                f"#{e}:v;\n#TITLE:t;\n",
+                f"#VERSION:0.83;\n#NOTEDATA:;\n#{e}:v;\n#NOTES:0000;\n#{e}:w;\n",
+            ]
+            for ti, text in enumerate(texts):
+                for strict in (True, False):
+                    case = {"kind": "text", "text": text, "strict": strict}
+                    run_text(acc, layer, case, text, strict, ("auto", "sm" if ti in (0, 3) else "ssc"))
+            acc.count("states")
+            acc.count("transitions")
+            acc.count("nontrivial")
+        acc.outcome("vocabulary text")
+        acc.sample(layer, case)
     elif kind == "scale":
         _, fmt, part, nparts, thorough = shard
         layer = "S scale (long one-line lists, metacharacters around buffer sizes, many charts / properties)"
@@ -263,6 +286,7 @@ def explore(run):
         for b in range(ns):
             shards.append(("C", (a, b), cmax))
     shards.append(("whole",))
+    shards.append(("vocab",))
     for fmt in ("sm", "ssc"):
         for part in range(8):
             shards.append(("scale", fmt, part, 8, run.thorough()))
@@ -293,11 +317,13 @@ def explore(run):
         "a case is checked when the loader accepts the text, every SSC chart has note data and no value falls in msdparser's escaping gaps (each exclusion counted). "
         "Non-trivial = text with >= 2 parameters / any corpus mutation."
         + " S: scale texts - one-line lists of 7..700 entries as BPMS / STOPS / BGCHANGES (SSC: also in the chart), each of : // \\ ; at every offset in a window before 4096 and 8192 (thorough 16384, 65536) in the first property, the note data and a description, 17 / 130 / 1100 charts, 400 properties; both formats x strict x 2 loaders."
+        + " V: every vocabulary token (see C01) as a value, as ATTACKS / DISPLAYBPM components, in chart fields and chart properties, as VERSION and as a key, in both formats x strict x 2 loaders."
     )
     run.assumptions = [
         "simfile.loads is the loader under test (its conformance to the rules is C03's business)",
         "msdparser escaping gaps are detected operationally (write with MSDParameter.__str__, read with parse_msd) and must match a pattern listed in the property",
     ]
+    core.require(acc.outcomes["vocabulary text"] > 0, "no vocabulary text")
     core.require(acc.outcomes["scale text"] > 0, "no scale text")
     core.require(acc.c["cycles_checked"] > 1000, "too few cycles checked")
     core.require(acc.outcomes["SSC chart text"] > 0 and acc.outcomes["SM chart text"] > 0, "no chart texts")
